@@ -3,7 +3,7 @@
    allocation is non-empty, growth is at least doubling, overflow is refused by panicking).
    Changing the constants 8 / 4 / 1 keeps this lemma; changing doubling to +1 breaks it. *)
 From Coq Require Import ZArith List String Bool Lia.
-From MV Require Import Ast Eval Scalar Machine Run Text Equiv Model.
+From MV Require Import Ast Eval Scalar Machine Run Text EquivDefs Model.
 From MV.Proofs Require Import Arith Grow.
 From MV.Gen Require Import AstGen.
 Import ListNotations.
